@@ -121,6 +121,14 @@ def singleEntryCM (i o : PixelFormat) (cm : ColourMap) (p : Nat) : Nat :=
             (cmScale cm (cmComp cm p 2) o.blueMax <<< o.blueShift)) % 2 ^ o.bpp
   if o.bigEndian != i.bigEndian then swapOut o.bpp v else v
 
+/-- `rfbSetClientColourMap(cl, …)` for a client whose format is true colour (always so after a
+successful `rfbSetTranslateFunction`): the lookup table is rebuilt from the screen's CURRENT colour
+map iff the server is colour-mapped and the client has sent SetPixelFormat
+(`cl->readyForSetColourMapEntries`); otherwise nothing happens.  `tableCm` is the colour map the
+table was last built from; the result is the one it is built from afterwards. -/
+def setClientColourMap (ready : Bool) (srv : PixelFormat) (tableCm screenCm : ColourMap) : ColourMap :=
+  if srv.trueColour || !ready then tableCm else screenCm
+
 /-! ## choice of the translation function -/
 
 inductive Strategy where
